@@ -12,15 +12,15 @@ import (
 func init() { registry["C05"] = runC05 }
 
 type stratInput struct {
-	Type  string         `json:"type"`
-	Spec  Spec           `json:"spec"`
-	Cfg   string         `json:"coq_cfg"`
-	Warm  string         `json:"coq_warmup"`
-	N     int            `json:"n"`
-	Bars  map[string]any `json:"bars"`
-	Acts  []int64        `json:"observed_actions"`
-	Hung  bool           `json:"hung"`
-	Regime string        `json:"regime"`
+	Type   string         `json:"type"`
+	Spec   Spec           `json:"spec"`
+	Cfg    string         `json:"coq_cfg"`
+	Warm   string         `json:"coq_warmup"`
+	N      int            `json:"n"`
+	Bars   map[string]any `json:"bars"`
+	Acts   []int64        `json:"observed_actions"`
+	Hung   bool           `json:"hung"`
+	Regime string         `json:"regime"`
 }
 
 // atF applies a generated definition with its element type instantiated at binary64 when that type is one of its
@@ -29,7 +29,9 @@ func atF(name, args string) string {
 	return fmt.Sprintf("ltac:(first [exact (%s (T:=float) %s) | exact (%s %s)])", name, args, name, args)
 }
 
-func coqIface(typeKey string) string { return strings.ReplaceAll(strings.ReplaceAll(typeKey, "/", "_"), ".", "_") }
+func coqIface(typeKey string) string {
+	return strings.ReplaceAll(strings.ReplaceAll(typeKey, "/", "_"), ".", "_")
+}
 
 // warmTerm is the Coq term of the warm-up of a strategy configuration: the Shift a base strategy applies
 // to its actions; the minimum over the wrapped strategies for And/Or/Majority/Split/MacdRsi; the inner
